@@ -118,7 +118,9 @@ fn main() {
     // (b) grammar-guided, deviation <= 1: every accepted string up to lb over {0 1 2 a - . +} (and v),
     //     plus every single-symbol insertion / deletion / substitution from Sigma9 + {A, 9}
     let lang = accepted_language(&['0', '1', '2', 'a', '-', '.', '+', 'v'], lb);
-    let edit_syms: Vec<char> = vec!['0', '1', 'a', 'A', '9', '-', '.', '+', 'v', '٣', 'é'];
+    // white-space symbols are edit symbols too (SemVer has none; a trimming front end would accept them): edits that
+    // introduce one are also put through the check command
+    let edit_syms: Vec<char> = vec!['0', '1', 'a', 'A', '9', '-', '.', '+', 'v', '٣', 'é', ' ', '\n', '\t', '\r', '\u{a0}'];
     use rayon::prelude::*;
     let sb = lang
         .par_iter()
@@ -137,7 +139,7 @@ fn main() {
                     buf.push(e);
                     buf.extend(&chars[i..]);
                     st.inc("edits");
-                    let v = judge(&buf, false, &mut st);
+                    let v = judge(&buf, e.is_whitespace() && chars.len() <= 7, &mut st);
                     report(&ctx, &buf, "b1", v, &mut st);
                 }
                 if i < chars.len() {
@@ -156,7 +158,7 @@ fn main() {
                         buf.push(e);
                         buf.extend(&chars[i + 1..]);
                         st.inc("edits");
-                        let v = judge(&buf, false, &mut st);
+                        let v = judge(&buf, e.is_whitespace() && chars.len() <= 7, &mut st);
                         report(&ctx, &buf, "b1", v, &mut st);
                     }
                 }
@@ -164,6 +166,20 @@ fn main() {
             st
         })
         .reduce(Stats::default, Stats::merge);
+
+    // (b2) white-space padding on both sides of every accepted string up to length 7, parser and check command
+    let pads = ["", " ", "\n", "\t", "\r\n", "  ", "\u{a0}", "\u{2003}", "\u{feff}"];
+    let sb2 = lang.par_iter().filter(|s| s.len() <= 7).map(|s| {
+        let mut st = Stats::default();
+        for l in pads { for r in pads { if l.is_empty() && r.is_empty() { continue; }
+            let x = format!("{l}{s}{r}");
+            st.inc("padded_cases");
+            let v = judge(&x, true, &mut st);
+            report(&ctx, &x, "b2", v, &mut st);
+        }}
+        st
+    }).reduce(Stats::default, Stats::merge);
+    let sb = sb.merge(sb2);
 
     // (c) boundary numerals in each numeric position
     let nums = ["0", "1", "00", "01", "4294967295", "4294967296", "18446744073709551615",
@@ -244,7 +260,7 @@ fn main() {
     cov.evaluations = cov.states;
     cov.traces_validated = cov.states;
     cov.distinct_nontrivial = all.get("model_accepts") + sb.get("edits");
-    cov.rule = format!("(a) every string over {sigma9:?} up to length {la} (check command on length <= {lcheck}); (b) every string accepted by the reference DFA up to length {lb} over [0 1 2 a - . + v] and each of its single-symbol insertions/deletions/substitutions over {edit_syms:?}; (c) boundary numerals x numeric positions. non-trivial = strings the reference accepts plus strings within one edit of an accepted one (evaluations, duplicates between (a) and (b) not removed)");
+    cov.rule = format!("(a) every string over {sigma9:?} up to length {la} (check command on length <= {lcheck}); (b) every string accepted by the reference DFA up to length {lb} over [0 1 2 a - . + v] and each of its single-symbol insertions/deletions/substitutions over {edit_syms:?} (edits introducing white space also through the check command); (b2) every accepted string up to length 7 padded left/right with 8 white-space strings (ASCII and Unicode), parser and check command; (c) boundary numerals x numeric positions. non-trivial = strings the reference accepts plus strings within one edit of an accepted one (evaluations, duplicates between (a) and (b) not removed)");
     cov.exhaustive = true;
     cov.samples = vec![json!("1.0.0-0a.٣"), json!(lang[lang.len() / 2]), json!(lang[lang.len() - 1]), c_samples[0].clone()];
     cov.set("clause_counts", all.to_json());
